@@ -132,6 +132,8 @@ structure Inv (cfg : Cfg) (s : St) : Prop where
   gone : s.c = .gone → (s.services = some s.acc ∧ s.expect = 0) ∨ (s.services = none ∧ s.cancelled = true)
   svcNone : s.c ≠ .gone → s.services = none
   ret : s.m = .returned → s.c = .gone ∧ ∀ v ∈ cfg.svcs, live (s.w v) = false
+  callsNodup : s.calls.Nodup
+  callsW : ∀ v, v ∈ s.calls ↔ (s.w v ≠ .idle ∧ s.w v ≠ .start)
 
 theorem inv_init (cfg : Cfg) : Inv cfg (init cfg) := by
   constructor <;> simp [init, gotBit, sentOrExited]
